@@ -5,6 +5,7 @@
 -/
 import Y0.Props.C10Sem
 import Y0.Props.C01Sem
+import Y0.Lemmas.IdFuel
 
 namespace Y0
 namespace C10Sem
@@ -22,6 +23,170 @@ theorem id_sound_canonical {topo : MG Name → Except Err (List Name)} (ts : Top
   canonical_of_sound hM hq.wf hq.ranked (M.doProb G X Y) (fun τ => id_sound ts G X Y hq e h M hM σ' τ) hws
     (C01Sem.id_estimand_swOK ts G hq.wf X Y e h) (C01Sem.id_estimand_denNZA ts G hq.wf X Y e h M hM σ')
     hc hsw' hσ hσ'
+
+/-! ## non-vacuity: concrete semi-Markovian models -/
+
+section examples
+open Var
+
+/-- the bow graph `X → Y`, `X ↔ Y` (0 = X, 1 = Y) -/
+def bowG : MG Name := MG.fromEdges [0, 1] [(0, 1)] [(0, 1)]
+
+/-- a positive semi-Markovian model of the bow graph: one binary latent `10` shared by `X` and `Y` -/
+def bowM : Scm :=
+  { card := fun _ => 2
+    lat := [10]
+    prior := fun _ _ => 1 / 2
+    latOf := fun v => if v = 0 ∨ v = 1 then [10] else []
+    kern := fun v σ =>
+      if v = 0 then (if (σ 0 + σ 10) % 2 = 0 then 2 / 3 else 1 / 3)
+      else (if (σ 1 + σ 0 + σ 10) % 2 = 0 then 3 / 4 else 1 / 4) }
+
+theorem bowG_nodes : bowG.nodes = [0, 1] := by decide
+
+theorem bowM_compatible : bowM.Compatible bowG := by
+  refine ⟨fun _ => Nat.zero_lt_two, by decide, ?_, ?_, ?_, ?_, ?_, ?_, ?_, ?_⟩
+  · intro u hu; simp [bowM] at hu; subst hu; decide
+  · intro u _ k; simp [bowM]
+  · intro u _; simp [bowM, sumRange, List.range_succ]; norm_num
+  · intro v u hu; simp [bowM] at hu ⊢; exact hu.2
+  · intro v hv σ τ h
+    have hv' : v = 0 ∨ v = 1 := by rw [bowG_nodes] at hv; simpa using hv
+    rcases hv' with rfl | rfl
+    · have h0 := h 0 (by simp)
+      have h10 := h 10 (by simp [bowM])
+      simp [bowM, h0, h10]
+    · have h1 := h 1 (by simp)
+      have h0 := h 0 (by decide)
+      have h10 := h 10 (by simp [bowM])
+      simp [bowM, h0, h1, h10]
+  · intro v _ σ
+    simp only [bowM]
+    split_ifs <;> norm_num
+  · intro v hv σ
+    have hv' : v = 0 ∨ v = 1 := by rw [bowG_nodes] at hv; simpa using hv
+    rcases hv' with rfl | rfl
+    · simp only [sumVar, sumRange, bowM, List.range_succ, List.range_zero, List.nil_append, List.cons_append,
+        List.map_cons, List.map_nil, List.sum_cons, List.sum_nil, Val.set]
+      simp only [if_true]
+      rcases Nat.mod_two_eq_zero_or_one (σ 10) with h | h <;> simp [Nat.add_mod, h] <;> norm_num
+    · simp only [sumVar, sumRange, bowM, List.range_succ, List.range_zero, List.nil_append, List.cons_append,
+        List.map_cons, List.map_nil, List.sum_cons, List.sum_nil, Val.set]
+      simp only [if_true, show ¬ ((1 : Nat) = 0) by decide, if_false, show ¬ ((0 : Nat) = 1) by decide,
+        show ¬ ((10 : Nat) = 1) by decide]
+      rcases Nat.mod_two_eq_zero_or_one (σ 0 + σ 10) with h | h
+      · have h1 : (1 + σ 0 + σ 10) % 2 = 1 := by omega
+        simp [h, h1]; norm_num
+      · have h1 : (1 + σ 0 + σ 10) % 2 = 0 := by omega
+        simp [h, h1]; norm_num
+  · intro v hv w hw hne _
+    have hv' : v = 0 ∨ v = 1 := by rw [bowG_nodes] at hv; simpa using hv
+    have hw' : w = 0 ∨ w = 1 := by rw [bowG_nodes] at hw; simpa using hw
+    rcases hv' with rfl | rfl <;> rcases hw' with rfl | rfl <;> first | exact absurd rfl hne | decide
+theorem bowG_wf : bowG.WF := MG.wf_fromEdges _ _ _
+theorem bowG_ranked : bowG.Ranked := ⟨fun v => v, by decide⟩
+
+/-- all probability laws hold in the total environment of the bow model -/
+example : ProbFamily (bowM.envX bowG) := scm_envX_probFamily bowM_compatible bowG_wf bowG_ranked
+
+/-- `P(X, Y) / P(X)` -/
+def exBow : Expr := .frac (.prob none [plain 1, plain 0] []) (.prob none [plain 0] [])
+
+/-- so C10 holds in `bowM.env bowG` itself: `P(X, Y) / P(X)` and its canonical form denote the same number -/
+example (e' : Expr) (h : canon [plain 0, plain 1] exBow = .ok e') (hsw' : e'.swOK bowG = true) :
+    den (bowM.env bowG) (fun _ => 0) e' (fun _ => 1) = den (bowM.env bowG) (fun _ => 0) exBow (fun _ => 1) :=
+  canon_den_scm bowM_compatible bowG_wf bowG_ranked (by decide) (by decide)
+    (denNZ_of_denNZA _ (denNZA_of_obsOnly bowM_compatible bowG_wf _ exBow
+      (.frac _ _ (.prob _ _ (by intro v hv; simp at hv; rcases hv with rfl | rfl <;> exact ⟨rfl, by decide⟩) (by simp))
+        (.prob _ _ (by intro v hv; simp at hv; subst hv; exact ⟨rfl, by decide⟩) (by simp)))
+      (.frac _ _ (.prob _ _ _) (.prob _ _ _))))
+    h hsw' (fun _ => Nat.one_lt_two) (fun _ => Nat.zero_lt_two)
+
+/-! ### ID followed by canonicalisation, on the back-door graph -/
+
+/-- `Z → X → Y`, `Z → Y` (0 = Z, 1 = X, 2 = Y) -/
+def bdG : MG Name := MG.fromEdges [0, 1, 2] [(0, 1), (0, 2), (1, 2)] []
+
+theorem bdG_nodes : bdG.nodes = [0, 1, 2] := by decide
+
+/-- a positive Markovian model of the back-door graph -/
+def bdM : Scm :=
+  { card := fun _ => 2
+    lat := []
+    prior := fun _ _ => 1
+    latOf := fun _ => []
+    kern := fun v σ =>
+      if v = 0 then (if σ 0 % 2 = 0 then 1 / 3 else 2 / 3)
+      else if v = 1 then (if (σ 1 + σ 0) % 2 = 0 then 1 / 4 else 3 / 4)
+      else (if (σ 2 + σ 1 + σ 0) % 2 = 0 then 2 / 5 else 3 / 5) }
+
+theorem bdM_compatible : bdM.Compatible bdG := by
+  refine ⟨fun _ => Nat.zero_lt_two, by decide, ?_, ?_, ?_, ?_, ?_, ?_, ?_, ?_⟩
+  · intro u hu; simp [bdM] at hu
+  · intro u hu; simp [bdM] at hu
+  · intro u hu; simp [bdM] at hu
+  · intro v u hu; simp [bdM] at hu
+  · intro v hv σ τ h
+    have hv' : v = 0 ∨ v = 1 ∨ v = 2 := by rw [bdG_nodes] at hv; simpa using hv
+    rcases hv' with rfl | rfl | rfl
+    · have h0 := h 0 (by simp)
+      simp [bdM, h0]
+    · have h1 := h 1 (by simp)
+      have h0 := h 0 (by decide)
+      simp [bdM, h0, h1]
+    · have h2 := h 2 (by simp)
+      have h1 := h 1 (by decide)
+      have h0 := h 0 (by decide)
+      simp [bdM, h0, h1, h2]
+  · intro v _ σ
+    simp only [bdM]
+    split_ifs <;> norm_num
+  · intro v hv σ
+    have hv' : v = 0 ∨ v = 1 ∨ v = 2 := by rw [bdG_nodes] at hv; simpa using hv
+    rcases hv' with rfl | rfl | rfl
+    · simp [sumVar, sumRange, bdM, List.range_succ, Val.set]; norm_num
+    · simp only [sumVar, sumRange, bdM, List.range_succ, List.range_zero, List.nil_append, List.cons_append,
+        List.map_cons, List.map_nil, List.sum_cons, List.sum_nil, Val.set]
+      simp only [if_true, show ¬ ((1 : Nat) = 0) by decide, if_false, show ¬ ((0 : Nat) = 1) by decide]
+      rcases Nat.mod_two_eq_zero_or_one (σ 0) with h | h
+      · have h1 : (1 + σ 0) % 2 = 1 := by omega
+        simp [h, h1]; norm_num
+      · have h1 : (1 + σ 0) % 2 = 0 := by omega
+        simp [h, h1]; norm_num
+    · simp only [sumVar, sumRange, bdM, List.range_succ, List.range_zero, List.nil_append, List.cons_append,
+        List.map_cons, List.map_nil, List.sum_cons, List.sum_nil, Val.set]
+      simp only [if_true, show ¬ ((2 : Nat) = 0) by decide, show ¬ ((2 : Nat) = 1) by decide, if_false,
+        show ¬ ((0 : Nat) = 2) by decide, show ¬ ((1 : Nat) = 2) by decide]
+      rcases Nat.mod_two_eq_zero_or_one (σ 1 + σ 0) with h | h
+      · have h1 : (1 + σ 1 + σ 0) % 2 = 1 := by omega
+        simp [h, h1]; norm_num
+      · have h1 : (1 + σ 1 + σ 0) % 2 = 0 := by omega
+        simp [h, h1]; norm_num
+  · intro v _ w _ _ h
+    obtain ⟨u, hu, _⟩ := h
+    simp [bdM] at hu
+
+theorem bd_validQuery : ValidQuery bdG [1] [2] :=
+  ⟨MG.wf_fromEdges _ _ _, ⟨fun v => v, by decide⟩, by decide, by decide, by decide⟩
+
+/-- **`id_sound_canonical` applies to a non-trivial run**: on the back-door graph ID returns
+`Σ_Z P(Y | Z, X) · Σ_{X,Y} P(Z, X, Y)`, `canonicalize` rewrites it to `Σ_Z P(Z) · P(Y | Z, X)` (a different expression),
+and in the concrete positive model `bdM` the canonical form evaluates to `P(y | do(x))` at every in-range valuation. -/
+example (σ' σ : Val) (hσ : InRange (bdM.env bdG) σ) (hσ' : InRange (bdM.env bdG) σ') :
+    ∃ e e', identify checkedTopo bdG [1] [2] = .ok e ∧ canonicalize e none = .ok e' ∧ e'.eqb e = false ∧
+      den (bdM.env bdG) σ' e' σ = bdM.doProb bdG [1] [2] σ := by
+  have h : ∃ e, identifyF checkedTopo 8 bdG [1] [2] = .ok e := ⟨_, rfl⟩
+  obtain ⟨e, he⟩ := h
+  have hc : ∃ e', canonicalize e none = .ok e' ∧ e'.swOK bdG = true ∧ WellScoped e = true ∧ e'.eqb e = false := by
+    have : Except.ok e = identifyF checkedTopo 8 bdG [1] [2] := he.symm
+    cases this
+    exact ⟨_, rfl, by decide, by decide, by decide⟩
+  obtain ⟨e', hce, hsw', hws, hne⟩ := hc
+  exact ⟨e, e', identifyF_ok _ 8 _ _ _ _ he, hce, hne,
+    id_sound_canonical checkedTopo_sound bdG [1] [2] bd_validQuery e (identifyF_ok _ 8 _ _ _ _ he) bdM bdM_compatible
+      hws hce hsw' σ' σ hσ hσ'⟩
+
+end examples
 
 end C10Sem
 end Y0
